@@ -31,7 +31,7 @@ def import_off(path : str):
 def parse_off_data(data):
     output = RawMeshData()
     
-    data = [x.strip().split() for x in data]
+    data = [x.split("#")[0].strip().split() for x in data] # comments start with # and run to the end of the line
     # remove empty lines from data
     data = deque([x for x in data if x])
 
